@@ -57,6 +57,11 @@ class DT(PaneBase, in_format=('tuple',)):
     b: str = 'x'
 
 
+class DTI(PaneBase, in_format=('tuple',)):
+    label: str = pane.field(init=False, default='pt')
+    n: int = 0
+
+
 class DST(PaneBase, in_format=('struct', 'tuple')):
     a: str = 'p'
     b: str = 'q'
@@ -96,6 +101,7 @@ TARGETS = {
     'tuple_lit': ((t.Any, t.Any), {'list', 'tuple'}),
     'dc_struct': (DS, {'dict', 'mapping'}),
     'dc_tuple': (DT, {'list', 'tuple'}),
+    'dc_tuple_if': (DTI, {'list', 'tuple'}),        # init=False field first: positions bind to the init fields only
     'dc_both': (DST, {'list', 'tuple', 'dict', 'mapping'}),
     'lit_str': (Literal['a', 'b'], {'str', 'strsub'}),
     'enum_str': (ES, {'str', 'strsub'}),
@@ -138,7 +144,9 @@ def value(kind, target, i, f, s, alt):
     elif kind == 13:
         return BytesVal(b'ab')
     elif kind == 8 or kind == 9:
-        if target == 'dc_tuple':
+        if target == 'dc_tuple_if':
+            xs = [5] if alt else []
+        elif target == 'dc_tuple':
             xs = [1, 'y'] if alt else [1]
         else:
             xs = ['p', 'q']
@@ -287,7 +295,7 @@ def body_cell_{tn}_{ctx}(kind: int, i: int, f: float, s: str, alt: bool) -> int:
 # thorough: the full matrix
 _SCALAR = {'int', 'float', 'bool', 'str', 'none', 'bytes'}
 for (_tn, _c) in CTYPE:
-    quick = _c in ('top', 'field', 'field_pos') or (_tn in _SCALAR) or (_c == 'mapval_anykey' and _tn in ('list_str', 'dict_str', 'dc_struct', 'complex')) or (_tn in ('dc_tuple', 'dc_both', 'list_str') and _c in ('union', 'list'))
+    quick = _c in ('top', 'field', 'field_pos') or (_tn in _SCALAR) or (_c == 'mapval_anykey' and _tn in ('list_str', 'dict_str', 'dc_struct', 'complex')) or (_tn in ('dc_tuple', 'dc_tuple_if', 'dc_both', 'list_str') and _c in ('union', 'list'))
     # complex(): a symbolic float argument is realised without end -> concrete float for that target
     fpre = "True"
     exec(_T_.format(tn=_tn, ctx=_c, fpre=fpre, tiers=('quick', 'thorough') if quick else ('thorough',)))
